@@ -214,8 +214,13 @@ def gen_host_scenario(rng):
         r = rng.below(100)
         if r < 55 and live:
             ops.append(['S', rng.choice(live), rng.choice([1, 1, 2, 3])])      # send k one-fragment SDUs
+        elif r < 80:
+            ops.append(['C', rng.choice([1, 1, 2, 3, 9])])                   # controller completes k held packets, one event each
         elif r < 92:
-            ops.append(['C', rng.choice([1, 1, 2, 3, 9])])                   # controller completes k held packets
+            # ONE Number_Of_Completed_Packets event reporting k held packets for several handles at once, with an
+            # entry for a handle the host has no data queue for (unknown / SCO) placed first, in the middle or last
+            ops.append(['M', rng.choice([1, 2, 3, 9]), rng.choice(['first', 'middle', 'last', 'none']),
+                        rng.choice([0x0EEE, 0x0123])])
         elif live:
             h = rng.choice(live)
             live.remove(h)
@@ -295,6 +300,27 @@ def run_host_scenario(sc):
                         continue                      # buffers of a dead link are freed by the disconnection
                     ctl.send_hci_packet(hci.HCI_Number_Of_Completed_Packets_Event(
                         connection_handles=[pkt.connection_handle], num_completed_packets=[1]))
+                    await settle()
+            elif o[0] == 'M':
+                batch = []
+                while ctl.held and len(batch) < o[1]:
+                    pkt = ctl.held.pop(0)
+                    if pkt.connection_handle not in dead:
+                        batch.append(pkt.connection_handle)
+                if batch:
+                    hs, cs = [], []
+                    for h in batch:
+                        if h in hs:
+                            cs[hs.index(h)] += 1
+                        else:
+                            hs.append(h)
+                            cs.append(1)
+                    if o[2] != 'none':
+                        pos = {'first': 0, 'middle': len(hs) // 2, 'last': len(hs)}[o[2]]
+                        hs.insert(pos, o[3])
+                        cs.insert(pos, 1)
+                    ctl.send_hci_packet(hci.HCI_Number_Of_Completed_Packets_Event(
+                        connection_handles=hs, num_completed_packets=cs))
                     await settle()
             else:
                 dead.add(o[1])
